@@ -621,7 +621,7 @@ func c10(w *core.World, r *core.Report) {
 	}
 
 	// ---- DELETE-OP
-	r.Rule("DELETE-OP", 3, "deletions are marked only through utils.AddXMLOperation (which applies the delete/remove choice and the namespace option): no CreateAttr(\"operation\"...) in pkg/tree; in toXmlInternal the delete branch of a container comes before its presence branch (a presence container that must be deleted is rendered as a delete, not as a plain or missing element); AddXMLOperation honours useOperationRemove and operationWithNamespace.")
+	r.Rule("DELETE-OP", 4, "deletions are marked only through utils.AddXMLOperation (which applies the delete/remove choice and the namespace option): no CreateAttr(\"operation\"...) in pkg/tree; in toXmlInternal the delete branch of a container comes before its presence branch (a presence container that must be deleted is rendered as a delete, not as a plain or missing element); AddXMLOperation honours useOperationRemove and operationWithNamespace.")
 	for _, f := range w.RepoFns {
 		if f.Pkg == nil || f.Pkg.Pkg.Path() != core.Module+"/pkg/tree" {
 			continue
@@ -641,7 +641,92 @@ func c10(w *core.World, r *core.Report) {
 		for _, c := range core.CallsTo(xml, "tree.sharedEntryAttributes.containsOnlyDefaults") {
 			n++
 			ok := core.GuardedByBoolCall(c, false, "tree.sharedEntryAttributes.shouldDelete")
+			if !ok {
+				// 'case s.shouldDelete() && !s.IsRoot()' compiles to 'if phi(false [shouldDelete()==false], !IsRoot())': the
+				// presence branch is then reached with shouldDelete()==true only for the root (which is no presence container)
+				for _, g := range core.GuardsOf(c) {
+					ph, isPhi := g.If.Cond.(*ssa.Phi)
+					if !isPhi || g.CondTrue() || len(ph.Edges) != 2 {
+						continue
+					}
+					constFalse, notRoot := false, false
+					for i, e := range ph.Edges {
+						if b, isC := core.ConstBool(e); isC && !b {
+							// the edge comes from the block that tests shouldDelete()
+							pred := ph.Block().Preds[i]
+							if iff, ok := pred.Instrs[len(pred.Instrs)-1].(*ssa.If); ok {
+								for _, oc := range core.OriginCalls(iff.Cond) {
+									if core.CalleeIs(oc, "tree.sharedEntryAttributes.shouldDelete") {
+										constFalse = true
+									}
+								}
+							}
+							continue
+						}
+						v, neg := core.StripNot(e)
+						for _, oc := range core.OriginCalls(v) {
+							if neg && core.CalleeIs(oc, "tree.sharedEntryAttributes.IsRoot") {
+								notRoot = true
+							}
+						}
+					}
+					if constFalse && notRoot {
+						ok = true
+					}
+				}
+			}
 			r.Check(ok, "DELETE-OP", core.Site(xml, "delete branch before presence branch"), w.InstrPos(c), "a presence container that must be deleted must reach the delete branch first")
+		}
+		// the root has no element of its own: a delete element is created from s.pathElemName only where !IsRoot() holds
+		for _, c := range core.CallsTo(xml, "github.com/sdcio/data-server/pkg/utils.AddXMLOperation", "utils.AddXMLOperation") {
+			a := core.CallArgs(c)
+			if len(a) < 1 {
+				continue
+			}
+			fromName := false
+			for _, oc := range core.OriginCalls(a[0]) {
+				if core.CalleeIs(oc, "github.com/beevik/etree.Element.CreateElement") {
+					for _, x := range core.CallArgs(oc) {
+						if core.FieldOf(x) == "tree.sharedEntryAttributes.pathElemName" {
+							fromName = true
+						}
+					}
+				}
+			}
+			if !fromName {
+				continue
+			}
+			// only the container branch of the type switch can be the root
+			inContainer := false
+			for _, g := range core.GuardsOf(c) {
+				if !g.CondTrue() {
+					continue
+				}
+				if ex, isEx := g.If.Cond.(*ssa.Extract); isEx {
+					if ta, isTA := ex.Tuple.(*ssa.TypeAssert); isTA && strings.HasSuffix(ta.AssertedType.String(), "SchemaElem_Container") {
+						inContainer = true
+					}
+				}
+			}
+			if !inContainer {
+				continue
+			}
+			okRoot := core.GuardedByBoolCall(c, false, "tree.sharedEntryAttributes.IsRoot")
+			if !okRoot {
+				for _, g := range core.GuardsOf(c) {
+					if ph, isPhi := g.If.Cond.(*ssa.Phi); isPhi && g.CondTrue() {
+						for _, e := range ph.Edges {
+							v, neg := core.StripNot(e)
+							for _, oc := range core.OriginCalls(v) {
+								if neg && core.CalleeIs(oc, "tree.sharedEntryAttributes.IsRoot") {
+									okRoot = true
+								}
+							}
+						}
+					}
+				}
+			}
+			r.Check(okRoot, "DELETE-OP", core.Site(xml, "no delete element for the root"), w.InstrPos(c), "a delete element named after the entry must not be created for the root (empty name, not well formed)")
 		}
 		if n == 0 {
 			r.Info("DELETE-OP", core.Site(xml, "delete branch before presence branch"), w.Pos(xml.Pos()), "no presence special case")
